@@ -67,7 +67,18 @@ class PlainA:
 
 
 WrappedA = pg.wrap(PlainA)
-DETOUR_CLASSES = {'S1': S1, 'S2': S2, 'D1': D1, 'D2': D2}
+def fn_ok(cls, *args, **kwargs):
+  """A function destination of a detour (may create instances of the source class itself)."""
+  del cls, args, kwargs
+  return D1()
+
+
+def fn_raise(cls, *args, **kwargs):
+  del cls, args, kwargs
+  raise KeyError('destination function fails')
+
+
+DETOUR_CLASSES = {'S1': S1, 'S2': S2, 'D1': D1, 'D2': D2, 'fn_ok': fn_ok, 'fn_raise': fn_raise}
 
 
 class T1:
@@ -150,7 +161,7 @@ def _args(m):
   if m == 'perm':
     return st.sampled_from(list(PERMS))
   if m == 'detour':
-    return st.lists(st.tuples(st.sampled_from(['S1', 'S2']), st.sampled_from(['D1', 'D2', 'S2', 'S1'])), min_size=1, max_size=2,
+    return st.lists(st.tuples(st.sampled_from(['S1', 'S2']), st.sampled_from(['D1', 'D2', 'S2', 'S1', 'fn_ok', 'fn_raise'])), min_size=1, max_size=2,
                     unique_by=lambda p: p[0]).map(lambda ps: [list(p) for p in ps]).filter(
                         lambda ps: not ({p[0] for p in ps} & {p[1] for p in ps}))
   if m in ('dyn', 'dyn_global'):
@@ -236,7 +247,8 @@ def expected(stack, glob):
         new.append((src, mapping.get(dest, dest)))
     for src, dest in new:
       mapping[src] = dest
-  v['detour'] = {c: mapping.get(c, c) for c in ('S1', 'S2', 'PlainA')}
+  shown = {'fn_ok': 'D1', 'fn_raise': 'raises'}      # what creating an instance gives for a function destination
+  v['detour'] = {c: shown.get(mapping.get(c, c), mapping.get(c, c)) for c in ('S1', 'S2', 'PlainA')}
   dyn = [a['fn'] for m, a in stack if m == 'dyn']
   dyn_g = [a['fn'] for m, a in glob if m == 'dyn_global']
   v['dyn'] = dyn[-1] if dyn else (dyn_g[-1] if dyn_g else None)
@@ -270,7 +282,14 @@ def probe():
     v['perm'] = names[0] if names else repr(p)
   # (for the wrapped class the mapping is read rather than exercised: creating a symbolic object depends on flag scopes)
   dest = pg.detouring.current_mappings().get(PlainA, PlainA)
-  v['detour'] = {'S1': type(S1()).__name__, 'S2': type(S2()).__name__, 'PlainA': dest.__name__ if dest is not WrappedA else 'WrappedA'}
+  def made(c):
+    try:
+      return type(c()).__name__
+    except KeyError:
+      return 'raises'
+  # (each class is instantiated twice: a failing destination function must not disturb the mapping)
+  made(S1), made(S2)
+  v['detour'] = {'S1': made(S1), 'S2': made(S2), 'PlainA': dest.__name__ if dest is not WrappedA else 'WrappedA'}
   # (the getter rather than pg.oneof(...): creating a symbolic value depends on the flag scopes)
   fn = hyper_base.get_dynamic_evaluate_fn()
   v['dyn'] = getattr(fn, 'tag', None if fn is None else repr(fn))
@@ -633,7 +652,7 @@ CANON = {
     'view': [{'o1': 1, 'nest': {'p': 1}}, {'nest': {'q': {'r': 2}}}, {'nest': 0}],
     'codectx': [{'a': 1}, {'a': 2, 'b': 1}],
     'perm': ['none', 'basic', 'all'],
-    'detour': [[['S1', 'D1']], [['S2', 'D2'], ['S1', 'S2']][:1], [['S1', 'S2']]],
+    'detour': [[['S1', 'D1']], [['S2', 'D2'], ['S1', 'S2']][:1], [['S1', 'S2']], [['S1', 'fn_raise']], [['S2', 'fn_ok']]],
     'dyn': [{'fn': 'f1', 'exit': None}, {'fn': 'f2', 'exit': 'raise'}, {'fn': None, 'exit': 'ok'}],
     'dyn_global': [{'fn': 'f1', 'exit': None}, {'fn': 'f2', 'exit': 'raise'}],
     'timeit': ['t1', ''],
